@@ -56,6 +56,8 @@ var c16Decoders = []string{
 	"embedded/sql.unmapColSpec",
 	"embedded/sql.unmapCheckID",
 	"embedded/sql.loadColSpec",
+	"embedded/sql.parseCheckConstraint",
+	"embedded/sql.ParseExpFromString",
 	"embedded/sql.trimPrefix",
 	// protocol front-ends
 	"pkg/api/schema.(Metadata).Unmarshal",
@@ -258,6 +260,22 @@ func c16Run(c *Ctx, pfx string, decoders []string, full bool) {
 				p.requires = requiresFacts(p, g, rq)
 			}
 			perKind := map[string]int{}
+			// a single-result type assertion panics when the dynamic type differs: decoders use the comma-ok form
+			nta := 0
+			allInstrs(g, false, func(in ssa.Instruction) {
+				ta, ok := in.(*ssa.TypeAssert)
+				if !ok || ta.CommaOk {
+					return
+				}
+				nta++
+				nobl++
+				construct := fmt.Sprintf("%s:type assertion#%d", fnName(g), nta)
+				if mi, isMI := ta.X.(*ssa.MakeInterface); isMI && types.Identical(mi.X.Type(), ta.AssertedType) {
+					c.ok(pfx+"/no-unchecked-type-assertion", construct, c.pos(in.Pos()), "asserts the type it was just built from")
+					return
+				}
+				c.fail(pfx+"/no-unchecked-type-assertion", construct, c.pos(in.Pos()), "single-result type assertion to "+ta.AssertedType.String()+" on a value decided by the input: it panics instead of returning an error")
+			})
 			for _, o := range p.obligationsOf(scope) {
 				nobl++
 				perKind[o.what]++
